@@ -136,3 +136,28 @@ Proof.
       rewrite Forall_forall in Hin. apply (Hin g' Hg'). }
   apply (Hgen out); [auto|exact Hm].
 Qed.
+
+(* a partially buffered version is answered with sub-ranges of the ranges it holds *)
+Theorem buffered_range_within_held sv v q m :
+  (forall rs re last a b, In ((rs, re), last) (match vget v (sv_seq sv) with Some r => r | None => [] end) ->
+     rs <= a -> b <= re ->
+     wf_input (map (fun r => mkChg (fst r) (sv_rowsize sv) (snd r))
+                   (filter (in_range a b) (match vget v (sv_buf sv) with Some b0 => b0 | None => [] end))) a b = true) ->
+  In m (buffered_msgs sv v q) ->
+  match m with
+  | MFull _ _ s e _ => exists rs re last,
+      In ((rs, re), last) (match vget v (sv_seq sv) with Some r => r | None => [] end) /\ rs <= s /\ e <= re
+  | MEmpty _ _ => False
+  end.
+Proof.
+  intros Hwf Hm. unfold buffered_msgs in Hm. apply in_flat_map in Hm as [[[rs re] last] [Hsr Hm]].
+  destruct q as [[qs qe]|].
+  - destruct (((qs <=? rs) && (rs <=? qe)) || ((rs <=? qs) && (qe <=? re)) ||
+              ((rs <=? qe) && (qe <=? re)) || ((qs <=? re) && (re <=? qe))); [|destruct Hm].
+    pose proof (send_chunks_in_range _ _ _ _ _ _ m (Hwf rs re last (Z.max rs qs) (Z.min re qe) Hsr ltac:(lia) ltac:(lia)) Hm) as H.
+    destruct m as [v' r s e l|]; [|exact H]. destruct H as [_ [H1 H2]].
+    exists rs, re, last. split; [exact Hsr|lia].
+  - pose proof (send_chunks_in_range _ _ _ _ _ _ m (Hwf rs re last rs re Hsr ltac:(lia) ltac:(lia)) Hm) as H.
+    destruct m as [v' r s e l|]; [|exact H]. destruct H as [_ [H1 H2]].
+    exists rs, re, last. split; [exact Hsr|lia].
+Qed.
